@@ -84,7 +84,20 @@ def gen_rmap(rng, names_hint):
     return pairs
 
 
-def gen_tree(rng, depth, spy_p=0.0):
+_FRESH = [10]
+
+
+def hygienic_rmap(rng, child):
+    """rename some of the child's visible parameters to names used nowhere else"""
+    vis = sorted(visible_defaults(child))
+    pairs = []
+    for o in rng.sample(vis, min(len(vis), rng.choice([0, 1, 1, 2]))):
+        _FRESH[0] += 1
+        pairs.append([o, _FRESH[0]])
+    return pairs
+
+
+def gen_tree(rng, depth, spy_p=0.0, hygienic=False):
     if depth == 0 or rng.random() < 0.3:
         if rng.random() < spy_p:
             return {"spy": [[k, rq(rng)] for k in rng.sample(POOL, rng.randint(0, 2))]}
@@ -92,8 +105,8 @@ def gen_tree(rng, depth, spy_p=0.0):
     nchild = rng.randint(1, 3)
     children = []
     for _ in range(nchild):
-        c = gen_tree(rng, depth - 1, spy_p)
-        children.append({"rmap": gen_rmap(rng, None), "node": c})
+        c = gen_tree(rng, depth - 1, spy_p, hygienic)
+        children.append({"rmap": hygienic_rmap(rng, c) if hygienic else gen_rmap(rng, None), "node": c})
     sdef = {}
     for _ in range(rng.choice([0, 0, 1, 2])):
         sdef[rng.choice(POOL)] = rq(rng)
